@@ -54,7 +54,7 @@ JudgeGroups(r, gs, i) ==
          IN IF j.verdict # "ok" THEN j ELSE JudgeGroups(j.run, gs, i + 1)
 
 (* a line whose selections break a rule is not accepted; the rule is printed for the driver *)
-Accept(v) == v = "ok" \/ (PrintT(<<"REJECT", l, v>>) /\ FALSE)
+Accept(v) == IF v = "ok" THEN TRUE ELSE PrintT(<<"REJECT", l, v>>) /\ FALSE
 
 TPicks == /\ IsEv("picks")
           /\ LET j == JudgeGroups(run, Trace[l].groups, 1)
